@@ -181,6 +181,11 @@ func HotSpotParamRuleJsonArrayParser(src []byte) (interface{}, error) {
 	}
 	rules := make([]*hotspot.Rule, len(hotspotRules))
 	for i, hotspotRule := range hotspotRules {
+		if hotspotRule == nil {
+			// A JSON null element decodes to a nil pointer. Keep it as a nil rule, like the
+			// other parsers do; the rule manager ignores nil rules when loading.
+			continue
+		}
 		rules[i] = &hotspot.Rule{
 			ID:                hotspotRule.ID,
 			Resource:          hotspotRule.Resource,
